@@ -34,7 +34,7 @@ def run_translator() -> str | None:
     return None
 
 
-COQ_TARGETS = ["theories/Model/AnnotDbRun.vo", "theories/Model/AnnotDbGff.vo"]
+COQ_TARGETS = ["theories/Model/AnnotDbRun.vo", "theories/Model/AnnotDbGff.vo", "theories/Model/AnnotDbGffText.vo"]
 
 
 def pre_build():
@@ -553,6 +553,349 @@ def gb_model_records(mres):
     return out
 
 
+# ---- one GFF line -> one row (parser + naming step)
+
+GL_KEYS_CLEAN = ["ID", "Parent", "Name", "Note", "Dbxref", "Alias"]
+GL_KEYS_ODD = ["geneID", "xID", "PARENT", "id", "ParentID", "ID "]
+GL_VALUES = ["g1", "cds%3B1", "p1,p2", "x:1", "a%20b", "G1.t1"]
+GL_VALUES_ODD = ["", "a b", " g2", "g3 "]
+
+
+def gl_line(fields, pad=None, tail=None):
+    cols = [((pad or {}).get(i, ("", ""))[0] + f + (pad or {}).get(i, ("", ""))[1]) for i, f in enumerate(fields)]
+    return "\t".join(cols) + (tail or "")
+
+
+def gl_exhaustive_lines():
+    """every ordering of every subset of {ID=, Parent=, Name=} x separator ';' / '; ' x trailing ';'"""
+    items = ["ID=g1", "Parent=p1", "Name=n1"]
+    out = []
+    for k in range(0, 4):
+        for perm in itertools.permutations(items, k):
+            for sep in (";", "; "):
+                for trail in ("", ";"):
+                    out.append(gl_line(["s1", "src", "CDS", "11", "20", ".", "+", "0", sep.join(perm) + trail]))
+    return out
+
+
+def gl_random_line(rng):
+    kind = rng.choice(["row"] * 6 + ["odd"] * 3 + ["comment", "blank", "cols", "badint"])
+    if kind == "comment":
+        return rng.choice(["# a comment", "##gff-version 3", "###", " # indented", "#\tx\ty"])
+    if kind == "blank":
+        return rng.choice(["", " ", "\t", "  \t ", "\x0c"])
+    nkv = rng.choice([0, 1, 1, 2, 3, 4])
+    keys = GL_KEYS_CLEAN + (GL_KEYS_ODD if kind == "odd" else [])
+    vals = GL_VALUES + (GL_VALUES_ODD if kind == "odd" else [])
+    kv = [f"{rng.choice(keys)}={rng.choice(vals)}" for _ in range(nkv)]
+    sep = rng.choice([";", ";", "; "]) if kind != "odd" else rng.choice([";", "; ", " ;", ";;"])
+    attrs = sep.join(kv) + (";" if kv and rng.random() < 0.2 else "")
+    s_ = rng.randint(1, 60)
+    e_ = s_ + rng.choice([0, 1, 5, 30])
+    if kind == "odd" and rng.random() < 0.5:
+        s_, e_ = rng.choice([(0, 5), (-3, 4), (9, 2), (-5, -2), (7, 7), (1, 0)])
+    start, end = str(s_), str(e_)
+    if kind == "odd" and rng.random() < 0.2:
+        start = "+" + start
+    if kind == "badint":
+        start = rng.choice(["", "a5", "1.5", "5 6", "--3", "+"])
+    fields = [rng.choice(["s1", "s2", "chrX", "ctg 1"]), rng.choice(["src", "."]), rng.choice(BIOTYPES), start, end,
+              rng.choice([".", "0.5"]), rng.choice(["+", "-", ".", "?"]), rng.choice([".", "0", "1", "2"]), attrs]
+    if kind == "cols":
+        n = rng.choice([7, 8, 8, 10, 1, 2])
+        fields = (fields + ["extra"])[:n] if n != 8 else fields[:8]
+    pad = {}
+    if rng.random() < 0.3:
+        for i in rng.sample(range(len(fields)), k=min(len(fields), 2)):
+            pad[i] = (rng.choice(["", " "]), rng.choice(["", " ", "  "]))
+    tail = rng.choice(["", "", "", " # note", "#x", "\t# c"]) if kind != "odd" else rng.choice(["", "#", " #ID=zz"])
+    return gl_line(fields, pad, tail)
+
+
+def gl_oracle(line):
+    """the row a well-formed GFF3 line describes, read without the implementation; 'na' where the line is not
+    well-formed in the sense of this oracle (then only model and implementation are compared)"""
+    body = line.split("#", 1)[0].strip()
+    if not body:
+        return None
+    cols = [c.strip() for c in body.split("\t")]
+    if len(cols) == 8:
+        cols.append("")
+    if len(cols) != 9 or not (cols[3].isdigit() and cols[4].isdigit()) or not cols[3].isascii() or not cols[4].isascii():
+        return "na"
+    s_, e_ = int(cols[3]), int(cols[4])
+    if not 1 <= s_ <= e_:
+        return "na"
+    d = {}
+    for item in cols[8].split(";"):
+        if not item.strip():
+            continue
+        k, eq, v = item.partition("=")
+        if k != k.rstrip():
+            return "na"
+        k = k.strip()
+        if not eq or k not in GL_KEYS_CLEAN or not v or v != v.strip() or any(ch.isspace() for ch in v) or k in d:
+            return "na"
+        d[k] = v
+    return [d.get("ID"), d.get("Parent"), cols[0], cols[2], cols[6], cols[8], [s_ - 1, e_]]
+
+
+def gl_compare(rep, lines, impl, model):
+    n = nspec = nvio = 0
+    dis = []
+    for li, (line, ir) in enumerate(zip(lines, impl)):
+        mr = model[li] if model is not None else None
+        n += 1
+        ir = from_jsonable(ir)
+        orc = gl_oracle(line)
+        if orc != "na":
+            nspec += 1
+            if ir != orc:
+                nvio += 1
+                rep.violation("gffline:" + ("row" if orc is not None else "skipped-line"),
+                              dict(case=dict(kind="gfflines", lines=[line]), expected_by_spec=jsonable(orc), observed_impl=jsonable(ir),
+                                   model_output=jsonable(mr), broken="the row read from a well-formed GFF line differs from what the line says"))
+                continue
+        if model is not None and mr != ir:
+            if True:
+                dis.append(dict(key="gffline:model", case=dict(kind="gfflines", lines=[line]), observed_impl=jsonable(ir), model_output=jsonable(mr)))
+    return n, nspec, dis, nvio
+
+
+# ---- Parent= relation: get_feature_children / get_feature_parent
+
+def gp_random_case(rng):
+    """genes, transcripts with Parent=gene, exons/CDS with Parent=one or two transcripts, some without ID; in half
+    of the cases the names have one width (none is a substring of another), in the others g1 / g10 / g11 occur"""
+    wide = rng.random() < 0.5
+    idx = rng.sample([1, 2, 3, 4, 5, 6], 4) if wide else rng.sample([1, 10, 11, 2, 12, 21], 4)
+    nm = (lambda pre, i: f"{pre}{i:02d}") if wide else (lambda pre, i: f"{pre}{i}")
+    rows, genes, txs = [], [], []
+    pos = [1]
+
+    def coords(n=1):
+        out = []
+        for _ in range(n):
+            s_ = pos[0]
+            pos[0] += rng.choice([3, 7, 12])
+            out.append((s_, pos[0] - 1))
+            pos[0] += rng.choice([0, 2])
+        return out
+
+    for i in idx[:rng.randint(1, 3)]:
+        g = nm("g", i)
+        genes.append(g)
+        seqid, strand = rng.choice(GB_SEQIDS), rng.choice(["+", "-"])
+        (s_, e_), = coords()
+        rows.append(dict(seqid=seqid, biotype="gene", strand=strand, id=g, extra=rng.choice(["", "Name=n1"]), s=s_, e=e_))
+        for j in idx[:rng.randint(0, 2)]:
+            t = nm("m", j) + ("" if wide else rng.choice(["", "", "0"]))
+            if t in txs:
+                continue
+            txs.append(t)
+            (s_, e_), = coords()
+            rows.append(dict(seqid=seqid, biotype="mRNA", strand=strand, id=t, extra=f"Parent={g}", s=s_, e=e_,
+                             id_last=rng.random() < 0.3))
+            for _ in range(rng.randint(0, 3)):
+                par = ",".join(sorted(set([t] + ([rng.choice(txs)] if rng.random() < 0.3 else []))))
+                bt = rng.choice(["exon", "CDS"])
+                cid = None if rng.random() < 0.4 else nm("c" if bt == "CDS" else "e", len(rows))
+                for (s_, e_) in coords(rng.choice([1, 1, 2]) if cid else 1):
+                    rows.append(dict(seqid=seqid, biotype=bt, strand=strand, id=cid, extra=f"Parent={par}", s=s_, e=e_,
+                                     id_last=rng.random() < 0.3))
+    entries = [dict(c="##gff-version 3")] + rows
+    text = gb_text(entries)
+    names = sorted(set(genes + txs + [r["id"] for r in rows if r["id"]])) + [nm("g", 9), "m"]
+    return dict(kind="gfffamily", block="gfffamily", text=text, lpb=rng.choice([None, 2, 3]), names=names, wide=wide)
+
+
+def _parent_tokens(attrs):
+    for item in attrs.split(";"):
+        k, _, v = item.partition("=")
+        if k.strip() == "Parent" and v:
+            return v.split(",")
+    return []
+
+
+def gp_oracle(c, guard=True):
+    """children(q): the records naming q in their Parent= list; parent(q): the records named in the Parent= list of the
+    record called q.  None where a queried name is part of another name or parent (LIKE-based lookup is then looser)"""
+    recs = gb_oracle_records(c["text"])
+    tokens = {r[0] for r in recs} | {t for r in recs for t in _parent_tokens(r[4])}
+    out = []
+    for q in c["names"]:
+        if guard and (any(q.lower() in t.lower() and q.lower() != t.lower() for t in tokens) or any(ch in q for ch in "%_")):
+            out.append(None)
+            continue
+        kids = [r for r in recs if q in _parent_tokens(r[4])]
+        me = [r for r in recs if r[0] == q]
+        pars = [p for r in me for t in _parent_tokens(r[4]) for p in recs if p[0] == t]
+        f = lambda rs: sorted(([r[0], r[1], r[2], r[3], r[5]] for r in rs), key=repr)  # noqa: E731
+        out.append([f(kids), f([r for r in kids if r[2] == "CDS"]), f(pars)])
+    return out
+
+
+LOOSE_EXAMPLES = []
+
+
+def _anon_rows(rows):
+    return sorted(([("unknown-*" if _FAKE.match(r[0]) else r[0])] + list(r[1:]) for r in rows), key=repr)
+
+
+def gp_coq_case(c, fixed):
+    inner = gb_coq_case(dict(text=c["text"], lpbs=[c["lpb"]]), fixed)
+    head = inner[:inner.rindex(", [")]
+    n = inner[inner.rindex(", [") + 3:-2]
+    return head + f", {n}, [" + ";".join(zstr(q) for q in c["names"]) + "])"
+
+
+def gp_compare(rep, cases, impl, model):
+    n = nspec = nloose = nvio = 0
+    dis = []
+    for ci, (c, ir) in enumerate(zip(cases, impl)):
+        ir = from_jsonable(ir)
+        if isinstance(ir, dict) and "exc" in ir:
+            nvio += 1
+            rep.violation(f"raised:gfffamily:{re.sub('[0-9]+', 'N', ir.get('msg', ''))[:60]}", dict(case=c, observed_impl=ir,
+                          broken="get_feature_children / get_feature_parent raised on a db loaded from valid GFF text"))
+            continue
+        orc = gp_oracle(c)
+        strict = gp_oracle(c, guard=False)
+        mr = model[ci] if model is not None else None
+        for qi, q in enumerate(c["names"]):
+            n += 1
+            obs = ir[qi]
+            if orc[qi] is not None:
+                nspec += 1
+                if [_anon_rows(x) for x in obs] != [_anon_rows(x) for x in orc[qi]]:
+                    nvio += 1
+                    what = "children" if _anon_rows(obs[0]) != _anon_rows(orc[qi][0]) or _anon_rows(obs[1]) != _anon_rows(orc[qi][1]) else "parent"
+                    rep.violation(f"gfffamily:{what}", dict(case=dict(c, names=[q]), expected_by_spec=jsonable(orc[qi]), observed_impl=jsonable(obs),
+                                                            broken="children / parents returned differ from the Parent= relation of the text"))
+                    continue
+            else:
+                nloose += 1
+                if [_anon_rows(x) for x in obs] != [_anon_rows(x) for x in strict[qi]]:
+                    ex = dict(text=c["text"], name=q, relation=jsonable(strict[qi]), returned=jsonable(obs))
+                    if f"ID={q}\n" in c["text"] or f"ID={q};" in c["text"]:
+                        LOOSE_EXAMPLES.insert(0, ex)   # prefer a query that is the full name of a record
+                    else:
+                        LOOSE_EXAMPLES.append(ex)
+            if mr is not None:
+                mq = [sorted(([(r[0] if isinstance(r[0], str) else f"unknown-{r[0][0]}"), r[1], r[2], r[3], r[5]] for r in part), key=repr)
+                      for part in mr[qi]]
+                if mq != obs:
+                    dis.append(dict(key="gfffamily:model", case=dict(c, names=[q]), observed_impl=jsonable(obs), model_output=jsonable(mq)))
+    return n, nspec, nloose, dis, nvio
+
+
+# ---- several files behind one wildcard path
+
+def gf_case(files_entries, queries, block):
+    texts = [gb_text(e) for e in files_entries]
+    return dict(kind="gfffiles", block=block, texts=texts, lpbs=[None, 1, 2, 3, DEFAULT_LPB], queries=queries)
+
+
+def gf_random_case(rng):
+    """2-4 files; rows with and without ID=; with probability 1/2 some IDs have rows in several files"""
+    nfiles = rng.choice([2, 2, 3, 4])
+    share = rng.random() < 0.5
+    files = [[] for _ in range(nfiles)]
+    for i in range(rng.randint(2, 7)):
+        has_id = rng.random() < 0.6
+        nrows = rng.choice([1, 2, 3]) if has_id else 1
+        base = dict(seqid=rng.choice(GB_SEQIDS), biotype=rng.choice(BIOTYPES), strand=rng.choice(GB_STRANDS),
+                    id=(f"f{i}" if has_id else None), extra=rng.choice(GB_EXTRA))
+        home = rng.randrange(nfiles)
+        used = set()
+        for _ in range(nrows):
+            while True:
+                s_ = rng.randint(1, 40)
+                e_ = s_ + rng.choice([0, 1, 4, 9, 15])
+                if (s_, e_) not in used:
+                    used.add((s_, e_))
+                    break
+            files[rng.randrange(nfiles) if share else home].append(dict(base, s=s_, e=e_))
+    entries = []
+    for rows in files:
+        e = list(rows)
+        if rng.random() < 0.8:
+            e.insert(0, dict(c="##gff-version 3"))
+        if rng.random() < 0.3:
+            e.insert(rng.randint(0, len(e)), dict(c="# c"))
+        entries.append(e)
+    return gf_case(entries, gb_queries(rng, 2), "gfffiles-random")
+
+
+def gf_exhaustive_cases():
+    """two files of two data rows each, every assignment of {ID=a, ID=b, no ID} to the four rows"""
+    base = [dict(seqid="s1", biotype="gene", strand="+", s=1, e=10), dict(seqid="s2", biotype="CDS", strand="-", s=21, e=30),
+            dict(seqid="s1", biotype="exon", strand="-", s=41, e=45), dict(seqid="chrX", biotype="CDS", strand="+", s=15, e=50)]
+    out = []
+    for ids in itertools.product(["a", "b", None], repeat=4):
+        rows = [dict(b, id=i, extra="") for b, i in zip(base, ids)]
+        out.append(gf_case([[dict(c="##gff-version 3")] + rows[:2], [dict(c="##gff-version 3")] + rows[2:]],
+                           [[0, 1000, True], [12, 22, True]], "gfffiles-exhaustive"))
+    return out
+
+
+GF_PROBE = gf_case([[dict(seqid="s1", biotype="gene", strand="+", id=None, extra="", s=1, e=10)],
+                    [dict(seqid="s2", biotype="exon", strand="-", id=None, extra="", s=101, e=110)]], [[0, 1000, True]], "gfffiles-probe")
+
+
+def gf_key(c):
+    per = [gb_parse(t) for t in c["texts"]]
+    if sum(1 for rows in per if any(r["id"] is None for r in rows)) > 1:
+        return "gfffiles:several-files"          # rows without ID= in more than one file
+    ids = [{r["id"] for r in rows if r["id"] is not None} for rows in per]
+    if any(ids[i] & ids[j] for i in range(len(ids)) for j in range(i)):
+        return "gfffiles:id-shared-across-files"
+    return "gfffiles:files-without-common-names"
+
+
+def gf_coq_case(c, order, fixed, carry):
+    files = []
+    for k in order:
+        t = c["texts"][k]
+        inner = gb_coq_case(dict(text=t, lpbs=[]), fixed)
+        files.append(inner[inner.index("["):inner.rindex(", [")])
+    nmax = max(len(t.splitlines()) for t in c["texts"]) + 1
+    ns = [0 if b is None else min(b, nmax) for b in c["lpbs"]]
+    return f"({cbool(fixed)}, {cbool(carry)}, [" + ";".join(files) + "], [" + ";".join(zlit(x) for x in ns) + "])"
+
+
+def gf_compare(rep, cases, impl, model, fixed, carry):
+    nload = nnontriv = nvio = 0
+    dis = []
+    for c, ir, mr in zip(cases, impl, model):
+        ir = from_jsonable(ir)
+        if isinstance(ir, dict) and "exc" in ir:
+            nvio += 1
+            rep.violation(f"raised:gfffiles:{re.sub('[0-9]+', 'N', ir.get('msg', ''))[:60]}",
+                          dict(case=c, observed_impl=ir, broken="loading valid GFF files through a wildcard path raised or hung"))
+            continue
+        order, loads = ir
+        cat = dict(c, text="".join(c["texts"][k] for k in order))
+        orc = gb_oracle(cat)
+        orc_anon = gb_anon(orc)
+        mrecs = gb_model_records(mr) if mr is not None else None
+        key = gf_key(c)
+        for bi, lpb in enumerate(c["lpbs"]):
+            nload += 1
+            if key != "gfffiles:files-without-common-names":
+                nnontriv += 1
+            obs = loads[bi]
+            if obs != orc and gb_anon(obs) != orc_anon:
+                nvio += 1
+                rep.violation(key, dict(case=dict(c, lpbs=[lpb]), lines_per_block=lpb, file_order=order, expected_by_spec=jsonable(orc),
+                                        observed_impl=jsonable(obs), model_output=jsonable(mrecs[bi]) if mrecs else None,
+                                        broken="records of GFF files loaded through one wildcard path differ from the records the files describe"))
+            elif mrecs is not None and obs[0] != mrecs[bi]:
+                dis.append(dict(key=key + ":model", case=dict(c, lpbs=[lpb]), file_order=order, observed_impl=jsonable(obs[0]),
+                                model_output=jsonable(mrecs[bi]), model_variant=dict(fixed=fixed, carry=carry)))
+    return nload, nnontriv, dis, nvio
+
+
 # the canonical split feature: which rule does the source under test follow for a name seen in an earlier block?
 GB_PROBE = gb_case([dict(c="##gff-version 3")] + [dict(seqid="s1", biotype="CDS", strand="+", id="c1", extra="", s=s, e=e)
                                                     for s, e in ((11, 20), (31, 40), (41, 50))], [[0, 1000, True]], "gffblocks-probe")
@@ -859,15 +1202,21 @@ PARTIAL = [
     "sqlite3's evaluation of the WHERE clause (=, LIKE, NULL, IN) is re-modelled in Model/AnnotDb.v and compared, not verified",
     "deepcopy / pickle / write+reload are the identity on the record list in the model (sqlite serialize/backup not modelled): compared only; "
     "to_rich_dict/from_dict, update, union, subset have theorems",
-    "GFF: text -> rows (tab splitting, '#' comments, the ID=/Parent= regexes, the seqids= filter) is compared only; the theorems start "
-    "from parsed rows; independence of lines_per_block is proved for files in which no feature repeats a span verbatim "
-    "(gff_repeated_row_refuted shows the hypothesis is needed); real IDs literally of the form unknown-<k> and paths matching several "
-    "files (the counter restarts per file while seen_ids is shared) are outside the model and not generated",
+    "GFF: the line -> row step is modelled (Model/AnnotDbGffText.v) and compared with the real parser on generated lines; the theorem "
+    "for well-formed lines assumes clean columns (no tab / '#' inside, nothing to strip) and takes int() as given; int() is modelled "
+    "for [+-]?[0-9]+ only, texts are cut into lines at \\n only; an attribute whose key merely ends in 'ID' (geneID=) is taken as the ID "
+    "by the regex (modelled as is, kept out of the spec oracle); independence of lines_per_block / of the cut into files is proved for "
+    "inputs in which no feature repeats a span verbatim (gff_repeated_row_refuted shows the hypothesis is needed); real IDs literally "
+    "of the form unknown-<k> are outside the model; the seqids= filter is not exercised",
+    "get_feature_children / get_feature_parent: modelled for the gff table only (LIKE '%name%' on parent_id / name), theorems are "
+    "soundness + completeness of children and soundness of parents w.r.t. that LIKE relation; the strict Parent= relation is an oracle "
+    "only where no queried name is part of another name (otherwise the LIKE lookup returns more: counted in "
+    "parent_child_answers_wider_than_parent_relation, not a verdict); the GenBank overrides (coordinates required) are not covered",
     "GenBank: text -> location expression (tokeniser, feature table parser, naming qualifiers) is compared only; theorems cover "
     "segment / point / complement / join / complement(join) -> spans, strand, start, stop; order(), bond(), a^b, a.b are not generated",
     "get_records_matching(on_alignment=False) and num_matches(on_alignment=...) on the two-table classes raise OperationalError in the "
     "unchanged source (on_alignment is not among the arguments the property names): tolerated as 'not observed', an answer is compared when given",
-    "get_feature_children / get_feature_parent, describe, biotype_counts are not covered",
+    "describe, biotype_counts are not covered",
     "union between a one-table self and a two-table other (result class switches) and update(seqids=...) are not exercised",
     "spec-level query theorems assume start < stop for stored rows and windows; degenerate ones are characterised by overlap_total and "
     "compared model-vs-implementation",
@@ -946,20 +1295,45 @@ def run(tier: str, seed: int) -> int:
     cases += [random_case(rng) for _ in range(ncases)]
     rng_g = random.Random(seed * 7919 + 18)
     gcases = [GB_PROBE] + gb_exhaustive_cases() + [gb_random_case(rng_g) for _ in range((60 if tier == "quick" else 5000) * (4 if proof_broken else 1))]
-    impl_all = core.run_impl_sharded("c17_impl.py", cases + gcases)
-    impl, gimpl = impl_all[:len(cases)], impl_all[len(cases):]
+    rng_f = random.Random(seed * 7919 + 19)
+    fcases = [GF_PROBE] + gf_exhaustive_cases() + [gf_random_case(rng_f) for _ in range((40 if tier == "quick" else 3000) * (4 if proof_broken else 1))]
+    rng_l = random.Random(seed * 7919 + 20)
+    glines = gl_exhaustive_lines() + [gl_random_line(rng_l) for _ in range((600 if tier == "quick" else 30000) * (4 if proof_broken else 1))]
+    lcases = [dict(kind="gfflines", lines=glines[i:i + 500]) for i in range(0, len(glines), 500)]
+    limpl_raw = core.run_impl_sharded("c17_impl.py", lcases)
+    limpl = [x for part in limpl_raw for x in (part if isinstance(part, list) else [part] * 500)][:len(glines)]
+    rng_p = random.Random(seed * 7919 + 21)
+    pcases = [gp_random_case(rng_p) for _ in range((60 if tier == "quick" else 3000) * (4 if proof_broken else 1))]
+    pimpl = core.run_impl_sharded("c17_impl.py", pcases)
+    impl_all = core.run_impl_sharded("c17_impl.py", cases + gcases + fcases)
+    impl, gimpl, fimpl = impl_all[:len(cases)], impl_all[len(cases):len(cases) + len(gcases)], impl_all[len(cases) + len(gcases):]
+    # does the fake-id counter run on across the files of one wildcard path?
+    gf_carry = isinstance(fimpl[0], list) and len(fimpl[0][1][0][0]) == 2
     # which rule does the source follow for a name met again in a later block (see Model/AnnotDbGff.v)?
     gb_fixed = isinstance(gimpl[0], list) and len(gimpl[0][1][0]) == 1
-    model = gmodel = cdmodel = None
+    model = gmodel = cdmodel = fmodel = lmodel = pmodel = None
     try:
         model = run_model(cases)
         cdmodel = run_cd_model(cases)
         gmodel = core.coq_eval(PROP, ["Model.AnnotDb", "Model.AnnotDbGff"], "run_blocks", [gb_coq_case(c, gb_fixed) for c in gcases],
                                "bool * list (option gline) * list Z", shard=80, tag="gb")
+        lmodel = core.coq_eval(PROP, ["Model.AnnotDb", "Model.AnnotDbGff", "Model.AnnotDbGffText"], "run_parse_line",
+                               [zstr(x) for x in glines], "list Z", shard=400, tag="gl")
+        pmodel = core.coq_eval(PROP, ["Model.AnnotDb", "Model.AnnotDbGff", "Model.AnnotDbGffText"], "run_family",
+                               [gp_coq_case(c, gb_fixed) for c in pcases], "bool * list (option gline) * Z * list (list Z)", shard=80, tag="gp")
+        fidx = [i for i, r in enumerate(fimpl) if isinstance(r, list)]
+        fout = core.coq_eval(PROP, ["Model.AnnotDb", "Model.AnnotDbGff"], "run_files",
+                             [gf_coq_case(fcases[i], fimpl[i][0], gb_fixed, gf_carry) for i in fidx],
+                             "bool * bool * list (list (option gline)) * list Z", shard=80, tag="gf")
+        fmodel = [None] * len(fcases)
+        for i, r in zip(fidx, fout):
+            fmodel[i] = r
     except core.CheckError as e:
         if not proof_broken:
             raise
         rep.notes.append(f"model not runnable: {str(e)[:300]}")
+    if fmodel is None:
+        fmodel = [None] * len(fcases)
     if gmodel is None:
         gmodel = [None] * len(gcases)
     if model is None:
@@ -968,9 +1342,13 @@ def run(tier: str, seed: int) -> int:
     ndis, nvio = compare(rep, cases, impl, model)
     g_loads, g_nontriv, g_dis, g_vio = gb_compare(rep, gcases, gimpl, gmodel, gb_fixed)
     cd_n, cd_dis, cd_vio = cd_compare(rep, cases, impl, cdmodel)
-    g_dis = g_dis + cd_dis
+    f_loads, f_nontriv, f_dis, f_vio = gf_compare(rep, fcases, fimpl, fmodel, gb_fixed, gf_carry)
+    l_n, l_spec, l_dis, l_vio = gl_compare(rep, glines, limpl, lmodel)
+    p_n, p_spec, p_loose, p_dis, p_vio = gp_compare(rep, pcases, pimpl, pmodel)
+    g_dis = g_dis + cd_dis + f_dis + l_dis + p_dis
+    nvio += l_vio + p_vio
     ndis += len(g_dis)
-    nvio += g_vio + cd_vio
+    nvio += g_vio + cd_vio + f_vio
 
     nq = sum(len(c["queries"]) for c in cases)
     nontrivial = set()
@@ -985,7 +1363,7 @@ def run(tier: str, seed: int) -> int:
         for o in c["ops"]:
             dist[o["op"]] = dist.get(o["op"], 0) + 1
     rep.coverage.update(
-        evaluations=nq + g_loads + cd_n, distinct_nontrivial=len(nontrivial) + g_nontriv,
+        evaluations=nq + g_loads + cd_n + f_loads + l_n + p_n, distinct_nontrivial=len(nontrivial) + g_nontriv + f_nontriv,
         rule="one evaluation = one query on one database history, or one load of one GFF text with one lines_per_block; "
              "non-trivial = coordinate-window query returning >=1 record, or a GFF load in which rows without ID= sit in more than "
              "one block; lattice block: all features/windows with coordinates in -1..7 x partial x bound presence, exhaustive; "
@@ -994,8 +1372,16 @@ def run(tier: str, seed: int) -> int:
              "filters) on a two-table and a one-table db; "
              "random block: random multi-span records on 3 seqids, shared names, %/_ patterns, histories of "
              "add/union/update/subset/copy; gffblocks: every 4-row file over {ID=a, ID=b, no ID} (+comment line) and random GFF "
-             "texts, each loaded with lines_per_block in {1,2,3,5,len-1,len,default,None}",
-        count_distinct_evaluations=cd_n, gff_block_loads=g_loads, gff_block_loads_idless_rows_in_several_blocks=g_nontriv,
+             "texts, each loaded with lines_per_block in {1,2,3,5,len-1,len,default,None}; gfffiles: 2-4 files behind one wildcard path "
+             "(every 2x2-row pattern over {ID=a, ID=b, no ID} + random, IDs shared across files or not) x lines_per_block in "
+             "{None,1,2,3,default}, oracle = records of the concatenated text; gfflines: single lines (all orderings of ID/Parent/Name, "
+             "odd keys, padding, comments, wrong column counts, bad integers) through gff_parser + merged_gff_records; gfffamily: "
+             "gene/mRNA/exon/CDS hierarchies, get_feature_children / get_feature_parent for every name",
+        parent_child_queries=p_n, parent_child_queries_with_strict_oracle=p_spec, parent_child_queries_name_inside_other_name=p_loose,
+        parent_child_answers_wider_than_parent_relation=len(LOOSE_EXAMPLES), parent_child_wider_example=LOOSE_EXAMPLES[:1],
+        gff_lines_parsed=l_n, gff_lines_with_spec_oracle=l_spec, count_distinct_evaluations=cd_n, gff_multi_file_loads=f_loads, gff_multi_file_loads_with_common_names=f_nontriv,
+        gff_fake_id_counter_across_files="carried (notes/proposed_fixes/C17-4.diff)" if gf_carry else "restarts per file (finding C17-4)",
+        gff_block_loads=g_loads, gff_block_loads_idless_rows_in_several_blocks=g_nontriv,
         gff_block_model_variant="repaired rule (notes/proposed_fixes/C17-3.diff)" if gb_fixed else "rule as first read (split features duplicated)",
         samples=[dict(case=dict(cases[2], queries=cases[2]["queries"][:2]), impl=impl[2][:2] if not isinstance(impl[2], dict) else impl[2])],
         input_distribution=dict(cases=len(cases), queries=nq, ops=dist),
@@ -1019,6 +1405,18 @@ def replay(path: str) -> int:
         print("replay names a broken obligation, not an input:", d.get("broken"))
         return 1
     c = d["case"]
+    if c.get("kind") == "gfffiles":
+        impl = from_jsonable(core.run_impl_lines("c17_impl.py", [c])[0])
+        print("impl  :", impl)
+        if isinstance(impl, dict):
+            print("REPRODUCED")
+            return 1
+        order, loads = impl
+        orc = gb_oracle(dict(c, text="".join(c["texts"][k] for k in order)))
+        print("oracle:", orc)
+        bad = any(o != orc and gb_anon(o) != gb_anon(orc) for o in loads)
+        print("REPRODUCED" if bad else "not reproduced")
+        return 1 if bad else 0
     if c.get("kind") == "gffblocks":
         impl = from_jsonable(core.run_impl_lines("c17_impl.py", [c])[0])
         orc = gb_oracle(c)
